@@ -3,7 +3,7 @@
    resolve_import re-applies the ladder).  Oracles: module locator, blacklist / pip / stdlib classification
    (isort's place_module, the site-packages regex and the configured patterns are compared with an
    independent classification of generated projects by ./check C12). *)
-From RattrV Require Import Base Str Context CallSwaps FuncAn Results Imports ImpProofs.
+From RattrV Require Import Base Str Context CallSwaps FuncAn Results Imports ImpProofs ImpReach.
 Open Scope string_scope.
 Open Scope list_scope.
 
@@ -51,9 +51,17 @@ Section C12.
       resolve_import module_of blacklisted in_pip in_stdlib follow_local follow_pip follow_stdlib fuel irs vis tn tq = RTarget mn ln c ->
       (exists m, In m irs /\ m_name m = mn /\ In ln (m_ir m)) /\ permitted mn = true /\ follow_local = true.
   Proof. exact (resolved_only_in_analysed_permitted module_of blacklisted in_pip in_stdlib follow_local follow_pip follow_stdlib). Qed.
+
+  (* the same, in terms of reachability: every module reachable from the target's imports through import
+     statements that name permitted modules with Python source is analysed *)
+  Theorem C12_every_reachable_permitted_module_is_analysed :
+    forall fuel q0 res, follow_local = true -> analysed fuel q0 = Some res ->
+      forall o, reach module_of origin_of blacklisted in_pip in_stdlib follow_pip follow_stdlib imports_in has_source q0 o -> In o (map snd res).
+  Proof. exact (every_reachable_permitted_module_is_analysed module_of origin_of blacklisted in_pip in_stdlib follow_local follow_pip follow_stdlib imports_in has_source). Qed.
 End C12.
 Print Assumptions C12_only_permitted_modules_are_analysed.
 Print Assumptions C12_analysed_set_is_closed.
+Print Assumptions C12_every_reachable_permitted_module_is_analysed.
 Print Assumptions C12_unanalysed_modules_contribute_nothing.
 
 (* non-vacuity: a diamond with a cycle - t imports a and b, both import c, c imports a *)
